@@ -292,6 +292,29 @@ class SymEx:
                 else:
                     raise AnalysisError('symex: loop over a symbolic sequence at %s line %d' % (func.qname, s.lineno))
             return out
+        if isinstance(s, ast.While):
+            # unrolled as long as the condition is decided on every path (bounded)
+            done = []
+            states = [(st, NORET)]
+            for _ in range(64):
+                nxt = []
+                for cur, rv in states:
+                    if rv is not NORET:
+                        done.append((cur, rv))
+                        continue
+                    for br, s2 in self.cond(s.test, cur, func):
+                        if br:
+                            nxt.extend(self.block(s.body, s2, func))
+                        else:
+                            done.append((s2, NORET))
+                states = nxt
+                if not states:
+                    break
+                if len(states) + len(done) > 256:
+                    raise AnalysisError('symex: while loop with a symbolic condition at %s line %d' % (func.qname, s.lineno))
+            if states:
+                raise AnalysisError('symex: while loop does not terminate symbolically at %s line %d' % (func.qname, s.lineno))
+            return done
         if isinstance(s, (ast.Yield,)):
             raise AnalysisError('symex: generator body')
         raise AnalysisError('symex: unsupported statement %s at %s line %d' % (type(s).__name__, func.qname, s.lineno))
@@ -479,6 +502,14 @@ class SymEx:
                     else:
                         out.append((s3, CallV('getitem', [b, i])))
             return out
+        if isinstance(e, ast.UnaryOp) and not isinstance(e.op, ast.Not):
+            out = []
+            for s2, v in self.ev(e.operand, st, func):
+                if isinstance(v, Const) and isinstance(v.v, (int, float)) and isinstance(e.op, ast.USub):
+                    out.append((s2, Const(-v.v)))
+                else:
+                    out.append((s2, CallV(type(e.op).__name__, [v])))
+            return out
         if isinstance(e, (ast.Compare, ast.BoolOp, ast.UnaryOp)):
             out = []
             for br, s2 in self.cond(e, st, func):
@@ -566,6 +597,34 @@ class SymEx:
 
     # -- calls ----------------------------------------------------------------------------
     def call(self, e, st, func):
+        # functools.reduce(lambda acc, el: ..., <list of known length>, init): unrolled
+        if norm(e.func) in ('functools.reduce', 'reduce') and len(e.args) >= 2 and isinstance(e.args[0], ast.Lambda):
+            lam = e.args[0]
+            ps = [a.arg for a in lam.args.args]
+            outs = []
+            for s2, seq in self.ev(e.args[1], st, func):
+                inits = self.ev(e.args[2], s2, func) if len(e.args) > 2 else [(s2, None)]
+                for s3, init in inits:
+                    if not isinstance(seq, ListV) or len(ps) != 2:
+                        outs.append((s3, CallV('reduce', [Opaque('lambda'), seq, init])))
+                        continue
+                    items = list(seq.items)
+                    acc = init
+                    if acc is None:
+                        if not items:
+                            outs.append((s3, CallV('raise', [Opaque('reduce of empty sequence')])))
+                            continue
+                        acc, items = items[0], items[1:]
+                    cur = s3
+                    for it in items:
+                        saved = dict(cur.env)
+                        cur.env[ps[0]] = acc
+                        cur.env[ps[1]] = it
+                        res = self.ev(lam.body, cur, func)
+                        cur, acc = res[0]
+                        cur.env = saved
+                    outs.append((cur, acc))
+            return outs
         # evaluate callee and arguments
         outs = []
         for s2, f in self.ev(e.func, st, func):
@@ -625,6 +684,8 @@ class SymEx:
                 return [(st, Const(str(args[0].v)))]
             if n == 'list' and args and isinstance(args[0], ListV):
                 return [(st, ListV(args[0].items))]
+            if n == 'reversed' and args and isinstance(args[0], ListV):
+                return [(st, ListV(list(reversed(args[0].items))))]
             return [(st, CallV(n, args, node=e))]
         if isinstance(e.func, ast.Attribute):
             recv = self.ev(e.func.value, st, func)[0][1]
